@@ -233,6 +233,11 @@ func (pkg *pkg) Print() error {
 }
 
 func (pkg *pkg) Delete() error {
+	if pkg.fullpath == "" {
+		// no source file of the package is known, so neither is its directory:
+		// the relative filename would name a file of the working directory.
+		return nil
+	}
 	filename := pkg.Filename()
 	_, err := os.Stat(filename)
 	if err != nil {
